@@ -5,10 +5,10 @@ import re
 
 from . import common as c
 
-SUPPORT = ["Loader/Pcdata.v", "Loader/StackMap.v", "Loader/PtrMapsProofs.v"]
+SUPPORT = ["Loader/Pcdata.v", "Loader/StackMap.v", "Loader/PtrMapsProofs.v", "Loader/WbSpec.v", "Loader/WbCoverage.v"]
 
 CLAIM = {
-    "gens": ["PtrMaps"],
+    "gens": ["PtrMaps", "WbStores"],
     "category": "proof",
     "text": ("WEAKEST CLAIM. Theorems (Coq) cover only the metadata handed to the Go runtime: (1) Pcdata.MarshalBinary (zig-zag varint value "
              "delta, uvarint pc delta, skip rule, terminator) followed by a transcription of runtime.readvarint/step/pcvalue returns at every "
@@ -18,6 +18,9 @@ CLAIM = {
              "tables of really generated code satisfy pcdata_wf (checked on every run). (2) StackMapBuilder.AddField/Build against the bit "
              "lookup, all bit lists. (3) the declared argument pointer bitmaps of the JIT decoder / encoder equal the word-by-word pointer map "
              "of the Go function types _Decoder / vars.Encoder, and the argument-area and frame sizes add up (regenerated from source). "
+             "(4) wb_coverage over the store table regenerated from the three x86 emitters (213 store sites): every store to a non-stack "
+             "destination is inside a write-barrier helper, narrower than a pointer, an immediate, an output-buffer byte, or one of 59 listed "
+             "exceptions with a category and an exact multiplicity - exhaustiveness is proved, the categories are reading-based arguments. "
              "NOT proved and not provable here: actual collection, stack copying, asynchronous preemption, write-barrier execution, the "
              "emptiness of the LOCAL pointer maps being harmless - these are sampled by child processes running real generated code with "
              "callbacks that collect, walk and grow the stack under GOGC=1 / gccheckmark / SONIC_SYNC_GC."),
@@ -101,7 +104,7 @@ def run(ctx):
     ctx.assumptions = [
         "OUTSIDE ANY PROOF: actual garbage collection, stack copying, asynchronous preemption and write-barrier execution while generated code is on the stack - only sampled (GOGC=1, GODEBUG=gccheckmark=1, SONIC_SYNC_GC=1, callbacks that call runtime.GC / runtime.Callers / debug.Stack and recurse deeply)",
         "the local pointer maps of all generated functions are EMPTY (theorem C10_local_maps_empty): the local frame area is never scanned; that this is harmless (no pointer lives only in a local slot across a call) is not proved",
-        "the write-barrier coverage of the assemblers (wb_coverage in DESIGN.md) is not attempted",
+        "wb_coverage proves only that the list of un-barriered non-stack stores is exhaustive and exact; that each listed category (Scalar, Zero, TypeWord, StaticPointer, PointsIntoInput, FreshObject, SelfInterior, ParamNotHeap, ParamStack, BufferWriteback) really makes a barrier unnecessary is an argument made by reading the emitter (notes/C10.md), weakest for BufferWriteback (encoder save_buffer writes RP into *rb without a barrier)",
         "runtime.readvarint's uint32 accumulation and `shift & 31` are modelled without wrap; pcdata_wf bounds (pc < 2^28, |value| < 2^26) keep every encoding within 4 bytes where both agree",
         "word layout of the stubs: pointer-shaped = 1 pointer word, integer = 1 scalar word, string = pointer+scalar, slice = pointer+2 scalars, interface = 2 pointer words; results are not part of the argument map",
     ]
@@ -109,6 +112,14 @@ def run(ctx):
     problems, found = [], []
     if not p_ok:
         problems.append(("P", getattr(ctx, "p_fail", "proof half failed")))
+        if not getattr(ctx, "p_fail", "").startswith("translator"):
+            rc, out = c.coq_eval("C10diag", """From Coq Require Import String List.
+From SV.Loader Require Import WbSpec.
+Eval vm_compute in ("exceptions_exact", exceptions_exact, "param_sites_ok", param_sites_ok, "helpers_ok", helpers_ok).
+Eval vm_compute in ("stores outside the helpers that are not listed", map key_of (filter (fun r => negb (existsb (fun e => key_eqb (key_of r) (fst (fst e))) exceptions)) leftovers),
+                    "listed exceptions whose multiplicity changed", map (fun e => (fst (fst e), count_key (fst (fst e)))) (filter (fun e => negb (Nat.eqb (count_key (fst (fst e))) (snd (fst e)))) exceptions)).
+""", timeout=300)
+            problems.append(("P-diagnosis", re.sub(r"\s+", " ", out)[-2500:]))
     ok, hb = c.build_harness("c10")
     if not ok:
         ctx.violation("harness does not build against /repo: " + hb[-1500:], {"build": hb}, False)
